@@ -11,6 +11,7 @@ import (
 	"os"
 	"path/filepath"
 	"sort"
+	"sync"
 	"time"
 
 	"github.com/thanos-io/thanos/pkg/reloader"
@@ -27,6 +28,7 @@ type stepIn struct {
 }
 
 type input struct {
+	Kind     string            `json:"kind,omitempty"` // "" = scripted apply calls; "watch" = the real Watch loop
 	HasCfg   bool              `json:"has_cfg"`
 	Tolerate bool              `json:"tolerate"`
 	Env      map[string]string `json:"env"`
@@ -54,6 +56,22 @@ func facts(repo string, w io.Writer) error {
 	}
 	fmt.Fprintln(w, "(* pkg/reloader/reloader.go: if-conditions and returns of Reloader.apply, in source order *)")
 	fmt.Fprintln(w, common.EventsCoq("apply_decisions", keep))
+	wev, err := s.CallOrder("Reloader.Watch")
+	if err != nil {
+		return err
+	}
+	// the endless loop of Watch: everything from the last plain `for` on
+	start := -1
+	for i, e := range wev {
+		if e.Kind == "for" && e.Text == "" {
+			start = i
+		}
+	}
+	if start < 0 {
+		return fmt.Errorf("Watch: no plain for loop found")
+	}
+	fmt.Fprintln(w, "(* pkg/reloader/reloader.go: events of the endless loop of Reloader.Watch, in source order *)")
+	fmt.Fprintln(w, common.EventsCoq("watch_loop", wev[start:]))
 	return nil
 }
 
@@ -116,6 +134,9 @@ func run(raw json.RawMessage) (common.Case, error) {
 		return common.Case{}, err
 	}
 	var c common.Case
+	if in.Kind == "watch" {
+		return runWatch(in)
+	}
 	for _, v := range allVars {
 		os.Unsetenv(v)
 	}
@@ -255,6 +276,181 @@ func run(raw json.RawMessage) (common.Case, error) {
 	return c, nil
 }
 
+type countingReload struct {
+	mu         sync.Mutex
+	failFirst  int
+	calls, oks int
+}
+
+func (f *countingReload) TriggerReload(context.Context) error {
+	f.mu.Lock()
+	defer f.mu.Unlock()
+	f.calls++
+	if f.calls <= f.failFirst {
+		return errors.New("scripted failure")
+	}
+	f.oks++
+	return nil
+}
+
+func (f *countingReload) snapshot() (int, int) {
+	f.mu.Lock()
+	defer f.mu.Unlock()
+	return f.calls, f.oks
+}
+
+// runWatch runs the real Watch loop (fsnotify + timers) while the files are edited
+// step by step, then looks at the outcome some watch intervals after the last edit.
+func runWatch(in input) (common.Case, error) {
+	c := common.Case{Class: fmt.Sprintf("watch/cfg=%v", in.HasCfg)}
+	for _, v := range allVars {
+		os.Unsetenv(v)
+	}
+	var envNames []string
+	for k, v := range in.Env {
+		os.Setenv(k, v)
+		envNames = append(envNames, k)
+	}
+	sort.Strings(envNames)
+	defer func() {
+		for k := range in.Env {
+			os.Unsetenv(k)
+		}
+	}()
+	root, err := os.MkdirTemp("", "c47w")
+	if err != nil {
+		return c, err
+	}
+	defer os.RemoveAll(root)
+	root, _ = filepath.EvalSymlinks(root)
+	dir, outDir := filepath.Join(root, "in"), filepath.Join(root, "out")
+	cfgPath, cfgOut := filepath.Join(root, "cfg.yaml"), filepath.Join(root, "cfg.out.yaml")
+	os.Mkdir(dir, 0o755)
+	os.Mkdir(outDir, 0o755)
+	const tick = 40 * time.Millisecond
+	opts := &reloader.Options{
+		CfgDirs:                       []reloader.CfgDirOption{{Dir: dir, OutputDir: outDir}},
+		WatchInterval:                 tick,
+		DelayInterval:                 3 * time.Millisecond,
+		RetryInterval:                 time.Millisecond,
+		TolerateEnvVarExpansionErrors: in.Tolerate,
+	}
+	var curCfg *string
+	cur := map[string]string{}
+	if in.HasCfg {
+		opts.CfgFile, opts.CfgOutputFile = cfgPath, cfgOut
+		first := "initial: 0\n"
+		if err := os.WriteFile(cfgPath, []byte(first), 0o644); err != nil {
+			return c, err
+		}
+		curCfg = &first
+	}
+	fails := 0
+	if len(in.Steps) > 0 {
+		fails = in.Steps[0].Fails
+	}
+	fr := &countingReload{failFirst: fails}
+	rl := reloader.VerifC47New(opts, fr)
+	ctx, cancel := context.WithCancel(context.Background())
+	done := make(chan error, 1)
+	go func() { done <- rl.Watch(ctx) }()
+	for i, st := range in.Steps {
+		if st.Cfg != nil && in.HasCfg {
+			if err := os.WriteFile(cfgPath, []byte(*st.Cfg), 0o644); err != nil {
+				cancel()
+				return c, err
+			}
+			v := *st.Cfg
+			curCfg = &v
+		}
+		for n, v := range st.Files {
+			p := filepath.Join(dir, n)
+			if v == nil {
+				os.Remove(p)
+				delete(cur, n)
+			} else {
+				if err := os.WriteFile(p, []byte(*v), 0o644); err != nil {
+					cancel()
+					return c, err
+				}
+				cur[n] = *v
+			}
+		}
+		if i < len(in.Steps)-1 {
+			time.Sleep(time.Duration(5+7*(i%4)) * time.Millisecond)
+		}
+	}
+	_, oksAtLastEdit := fr.snapshot()
+	// wait for a successful reload after the last edit (generous: the machine may be loaded) ...
+	for dl := time.Now().Add(10 * time.Second); time.Now().Before(dl); {
+		if _, oks := fr.snapshot(); oks > oksAtLastEdit {
+			break
+		}
+		time.Sleep(tick / 4)
+	}
+	// ... then let the loop settle: until no endpoint call happened during three watch intervals
+	deadline := time.Now().Add(5 * time.Second)
+	lastCalls, _ := fr.snapshot()
+	quietSince := time.Now()
+	for time.Now().Before(deadline) {
+		time.Sleep(tick / 2)
+		calls, _ := fr.snapshot()
+		if calls != lastCalls {
+			lastCalls, quietSince = calls, time.Now()
+		} else if time.Since(quietSince) > 3*tick {
+			break
+		}
+	}
+	_, oksSettled := fr.snapshot()
+	callsBefore, _ := fr.snapshot()
+	time.Sleep(4 * tick)
+	callsAfter, _ := fr.snapshot()
+	var oc *string
+	if b, err := os.ReadFile(cfgOut); err == nil {
+		s := string(b)
+		oc = &s
+	}
+	od := map[string]string{}
+	ents, _ := os.ReadDir(outDir)
+	for _, e := range ents {
+		b, err := os.ReadFile(filepath.Join(outDir, e.Name()))
+		if err != nil {
+			continue // a temporary file of a pass in progress
+		}
+		od[e.Name()] = string(b)
+	}
+	cancel()
+	returned := false
+	select {
+	case <-done:
+		returned = true
+	case <-time.After(10 * time.Second):
+	}
+	var env []string
+	for _, k := range envNames {
+		env = append(env, common.Pair(common.Bytes(k), common.Bytes(in.Env[k])))
+	}
+	var cfgSnap *string
+	if in.HasCfg {
+		cfgSnap = curCfg
+	}
+	reloaded := oksSettled > oksAtLastEdit || (oksSettled > 0 && len(in.Steps) == 0)
+	c.Coq = common.App("CWatch", common.Bool(in.HasCfg), common.Bool(in.Tolerate), common.List(env), optBytes(cfgSnap), coqFiles(cur),
+		optBytes(oc), coqFiles(od), common.Bool(reloaded), common.Nat(callsAfter-callsBefore), common.Bool(returned))
+	c.Obs = map[string]any{"out_cfg": oc, "out_dir": od, "reloads_ok": oksSettled, "reloaded_after_last_edit": reloaded, "extra_calls": callsAfter - callsBefore, "returned": returned}
+	c.Nontrivial = len(in.Steps) >= 2
+	if !reloaded {
+		c.GoPred, c.Sig = "no successful reload after the last edit", "watch-no-reload"
+	} else if callsAfter != callsBefore {
+		c.GoPred, c.Sig = "the endpoint is still being called although nothing changes", "watch-not-quiet"
+	} else if !returned {
+		c.GoPred, c.Sig = "Watch did not return after its context was cancelled", "watch-no-return"
+	} else if len(od) != len(cur) {
+		c.GoPred, c.Sig = fmt.Sprintf("output directory has %d files for %d inputs", len(od), len(cur)), "watch-stale-output"
+	}
+	return c, nil
+}
+
 // ---- generators ----
 var fragments = []string{"a: 1\n", "x", "$(V1)", "$(V2)", "$(V_3)", "$(UNSET)", "$(", "$()", "$V1", "${V1}", ")", "$(V1", "$$(V2)", "$(V1)$(V2)", "\n", "name: $(V1)-$(V2)\n", "$(v1)", "$(V1 )"}
 
@@ -278,6 +474,33 @@ func gen(r *rand.Rand, tier string, n int) []any {
 	}
 	names := []string{"a.yaml", "b.yaml", "c.yaml", "rules.yml"}
 	for i := 0; i < n; i++ {
+		if r.Intn(12) == 0 {
+			// the real Watch loop: only expandable contents, every step changes something
+			in := input{Kind: "watch", HasCfg: r.Intn(3) > 0, Tolerate: true, Env: map[string]string{"V1": "host-1", "V2": common.Pick(r, "", "7")}}
+			for s := 0; s < 1+r.Intn(4); s++ {
+				st := stepIn{Files: map[string]*string{}}
+				if in.HasCfg && r.Intn(2) == 0 {
+					v := fmt.Sprintf("step: %d-%d\n%s", i, s, genContent(r, true))
+					st.Cfg = &v
+				}
+				nme := common.Pick(r, names...)
+				if r.Intn(4) == 0 && s > 0 {
+					st.Files[nme] = nil
+					other := common.Pick(r, names...)
+					v := fmt.Sprintf("%d-%d %s", i, s, genContent(r, true))
+					st.Files[other] = &v
+				} else {
+					v := fmt.Sprintf("%d-%d %s", i, s, genContent(r, true))
+					st.Files[nme] = &v
+				}
+				if s == 0 {
+					st.Fails = r.Intn(3)
+				}
+				in.Steps = append(in.Steps, st)
+			}
+			out = append(out, in)
+			continue
+		}
 		in := input{HasCfg: r.Intn(4) > 0, Tolerate: r.Intn(2) == 0, Env: map[string]string{}}
 		for _, v := range []string{"V1", "V2", "V_3"} {
 			if r.Intn(5) > 0 {
